@@ -280,8 +280,22 @@ def run(body, start_bb, env, call=None, max_steps=400, prog=None, depth=0, inlin
                 return ("tuple", [])
             if "str" in c:
                 return Sym("str:" + c["str"])
+            from . import mir as _mir
+            pc_ = _mir.parse_pretty_const(c.get("pretty")) if prog is not None else None
+            if pc_ is not None and pc_[0] in prog.adts and prog.adts[pc_[0]]["kind"] == "struct" \
+                    and [f["name"] for f in prog.adts[pc_[0]]["variants"][0]["fields"]] == [f for f, _ in pc_[1]]:
+                return ("variant", pc_[0].split("::")[-1], [Sym("str:" + v) if isinstance(v, str) else v for _, v in pc_[1]], 0, tuple(f for f, _ in pc_[1]), pc_[0])
             if isinstance(c.get("strs"), list):
-                return ("vec", tuple(Sym("str:" + x) if isinstance(x, str) else Sym("const") for x in c["strs"]))
+                items_ = list(c["strs"])
+                tinfo_ = prog.ty(c["ty"]) if prog is not None and isinstance(c.get("ty"), int) else None
+                if items_ == [""] and tinfo_ is not None and (tinfo_["k"] == "adt" or "[" in tinfo_["s"]):
+                    items_ = []      # an empty slice constant: its (empty) backing bytes read as one empty string
+                vv_ = ("vec", tuple(Sym("str:" + x) if isinstance(x, str) else Sym("const") for x in items_))
+                ad_ = prog.adts.get(tinfo_["d"]) if tinfo_ is not None and tinfo_["k"] == "adt" else None
+                if ad_ is not None and ad_["kind"] == "struct" and len(ad_["variants"][0]["fields"]) == 1:
+                    # a private newtype around the table
+                    return ("variant", tinfo_["d"].split("::")[-1], [vv_], 0, (ad_["variants"][0]["fields"][0]["name"],), tinfo_["d"])
+                return vv_
             return Sym("const")
         raise Unrecognised("operand %r" % (op,))
 
